@@ -170,3 +170,89 @@ def mono_interval(m, tab):
         lo, hi = min(c), max(c)
         i = j
     return lo, hi
+
+
+class DP:
+    """dual polynomial: the same integer value in two forms
+         e : expanded over input atoms and quotient atoms only (remainders substituted: r = X - q*2^k) -- canonical, used for algebra
+         c : compact, may mention remainder atoms (tight bounds by construction)                      -- used for interval bounds
+       the solver is told r == X_e - q*2^k for every remainder atom, so both forms denote the same value"""
+    __slots__ = ("e", "c")
+
+    def __init__(self, e=None, c=None):
+        self.e = e if e is not None else Poly()
+        self.c = c if c is not None else self.e
+
+    @staticmethod
+    def const(v):
+        p = Poly.const(v)
+        return DP(p, p)
+
+    @staticmethod
+    def atom(i):
+        p = Poly.atom(i)
+        return DP(p, p)
+
+    @staticmethod
+    def lift(x):
+        if isinstance(x, DP):
+            return x
+        if isinstance(x, Poly):
+            return DP(x, x)
+        if isinstance(x, int):
+            return DP.const(x)
+        raise TypeError(type(x))
+
+    def is_const(self):
+        return self.e.is_const()
+
+    def cval(self):
+        return self.e.cval()
+
+    def __add__(self, o):
+        o = DP.lift(o)
+        return DP(self.e + o.e, self.c + o.c)
+
+    __radd__ = __add__
+
+    def __sub__(self, o):
+        o = DP.lift(o)
+        return DP(self.e - o.e, self.c - o.c)
+
+    def __rsub__(self, o):
+        return DP.lift(o) - self
+
+    def __neg__(self):
+        return DP(-self.e, -self.c)
+
+    def scale(self, k):
+        return DP(self.e.scale(k), self.c.scale(k))
+
+    def __mul__(self, o):
+        o = DP.lift(o)
+        return DP(self.e * o.e, self.c * o.c)
+
+    __rmul__ = __mul__
+
+    def key(self):
+        return self.e.key()
+
+    def pow2_content(self):
+        return self.e.pow2_content()
+
+    def atoms(self):
+        return self.e.atoms()
+
+    @property
+    def t(self):
+        return self.e.t
+
+    def interval(self, tab):
+        l1, h1 = self.c.interval(tab)
+        if self.c is self.e:
+            return l1, h1
+        l2, h2 = self.e.interval(tab)
+        return max(l1, l2), min(h1, h2)
+
+    def show(self, tab, maxterms=12):
+        return self.c.show(tab, maxterms)
